@@ -47,9 +47,11 @@ class Sentinel:
 
 
 def make_value(desc):
-    """desc: ['s', param] sentinel | ['f', i] falsy value number i"""
+    """desc: ['s', param] sentinel | ['f', i] falsy value number i | ['n', text] that namespace"""
     if desc[0] == 's':
         return '/explicit-ns' + chr(0x2603) if desc[1] == 'namespace' else Sentinel(desc[1])
+    if desc[0] == 'n':                  # an explicit namespace value, e.g. the default namespace '/'
+        return desc[1]
     return [0, '', [], None, False][desc[1]]
 
 
@@ -419,6 +421,15 @@ def result_and_sequence_cases(cname, helper, counter):
                'ret': ret, 'given': base, 'npos': 0, 'order': 'result'}
     if 'namespace' not in [p for p, _ in params]:
         return
+    # (c) explicit namespace overrides that are truthy but "look like a default": '/', the registered
+    # namespace itself, another one — on objects registered for a non-default namespace; an explicit
+    # namespace always wins, only an omitted / falsy one means the registered namespace
+    for reg in ('/reg', '/a/b'):
+        for val in ('/', '/other', reg, '/reg/sub', ' '):
+            for npos in (0, len(required)):
+                counter[0] += 1
+                yield {'cls': cname, 'helper': helper, 'reg': reg, 'ret': counter[0] % N_RESULTS,
+                       'given': base + [['namespace', ['n', val]]], 'npos': npos, 'order': 'override'}
     helpers = CLASSES[cname][0]
     with_ns = [h for h in helpers if getattr(getattr(s, cname), h, None) is not None and
                'namespace' in [p for p, _ in sig_params(getattr(getattr(s, cname), h))[0]]]
@@ -600,6 +611,8 @@ def run(ctx):
                 'in the parameter order of the target method and of the twin class; the stub returns each of %d kinds of '
                 'result (one-element list/tuple, nested, None, falsy …) for every helper; two-call sequences on one object '
                 '(explicit namespace, then a helper with the namespace omitted), .namespace compared after every call; '
+                'explicit namespace overrides "/", "/other", the registered one, … on objects registered for a '
+                'non-default namespace, for every helper with a namespace parameter; '
                 'registered namespace rotates over ' % N_RESULTS + 
                 '%r. non-trivial = at least one explicit falsy argument' % (REG_NAMESPACES,),
         'samples': samples, 'traces_validated_against_impl': n_exec,
